@@ -24,6 +24,8 @@ def short(f):
 def census(run, doc, cfgname, quiet_samples=False):
     F = Facts(doc)
     models = {ev: Model(F, ev) for ev in F.evaluators_present()}
+    from .common import canon_categories
+    canon_categories(F, models)
     J, rec = justifications(F, models)
     reach = F.scope()
     n_edges = n_dis = n_const = 0
